@@ -14,10 +14,10 @@ META = {
         "constant non-zero divisor; chrono-year range; TaxPeriod constructor invariant; constant index under a length "
         "test) or by an audited table entry keyed by (function, kind, operand shape); anything else is reported as an "
         "unproven may-panic. R3: every path in the call graph from an entry point to a Decimal operator-trait call / "
-        "Iterator::sum::<Decimal> passes a catch_unwind barrier (or the arithmetic is checked). R4: in the CLI main no "
-        "error exit is reachable after an output call (stdout, fs::write) except that call's own error, and the PDF "
-        "write of a defaulted path is cut off by the exists() test. R5: the validator's match is exhaustive and the "
-        "(variant, field, sign-class) table that pushes an error equals the table in the property statement. R6: every Decimal "
+        "Iterator::sum::<Decimal> passes a catch_unwind barrier (or the arithmetic is checked). R4: in every function of the CLI crate no "
+        "error exit is reachable after an output call (stdout, fs::write, or a call of a helper that transitively writes) except that call's own error, and the PDF "
+        "write of a defaulted path is cut off by the exists() test (constant-flag and Option-correlated infeasible edges resolved). R5: the validator's match is exhaustive and the "
+        "(variant, field, sign-class) table that pushes an error (collected over the validator and its helpers, each helper seen per call site) equals the table in the property statement. R6: every Decimal "
         "division in user-written code is dominated by a non-zero test on the very divisor (or the divisor comes from an iterator "
         "filtered on `> 0`, or is audited with the invariant that makes it non-zero), and the 30-day cumulative ratio is only ever "
         "multiplied/divided by ratios tested non-zero. "
